@@ -139,7 +139,16 @@ impl SubCheck for PoolSub {
                         have_bit = true;
                         tries_left = retries;
                     } else if stop.load(O::SeqCst) {
-                        break;
+                        // `stop` is set only after every activation call has returned, i.e. after
+                        // every unpark token has been issued: one more look tells whether a token
+                        // arrived between the timeout above and the read of `stop`
+                        if parker.park_timeout(Duration::ZERO) {
+                            last_now[w].store(false, O::SeqCst);
+                            have_bit = true;
+                            tries_left = retries;
+                        } else {
+                            break;
+                        }
                     }
                 }
                 end.wait();
